@@ -548,6 +548,22 @@ def check_e2e(case, acc):
                 continue
             if got.shape != (len(fr), 4) or not same(wanted(fr, k1, k2), got):
                 problems.append(("value", "value-other", f"evaluate_new_data on {what} (step {step + 1}, design built with k1={k1}): a column is not the value of its call on that frame"))
+    # more than a thousand rows: the value of a call is the value of its text on the whole columns (also when it holds a
+    # transform that learns parameters from the data)
+    big = pd.concat([df] * 250, ignore_index=True)
+    big["x"] = big["x"] + np.arange(len(big)) * 0.01
+    big["z"] = big["z"] + np.sin(np.arange(len(big)))
+    bx, bz = big["x"].to_numpy(), big["z"].to_numpy()
+    for text, want in (("center(x)", bx - bx.mean()), ("scale(x + z)", ((bx + bz) - (bx + bz).mean()) / (bx + bz).std()), ("I(rec(x) / 2 + center(z))", (bx + 210.0) / 2 + bz - bz.mean()),
+                       ("rec(center(x), 2)", (bx - bx.mean()) + 220.0), ("np.log(x) + 0 * z", np.log(bx)), ("standardize(np.log(x))", (np.log(bx) - np.log(bx).mean()) / np.log(bx).std())):
+        acc.calls += 1
+        try:
+            dmb = design_matrices(f"y ~ 0 + {text if '+ 0 *' not in text else 'I(' + text + ')'}", big, extra_namespace={"rec": rec})
+            got = np.asarray(dmb.common.design_matrix, dtype=float)[:, 0]
+            if got.shape != want.shape or not np.allclose(got, want, rtol=1e-9, atol=1e-9):
+                problems.append(("value", "value-other", f"'{text}' on 1500 rows: column is not the value of the text on the whole columns (max deviation {np.abs(got - want).max():.3g})"))
+        except Exception as ex:
+            problems.append(("value", "rejected", f"'{text}' on 1500 rows raised {type(ex).__name__}: {ex}"))
     for e in ["x + z", "x * z - 2", "x / z + 0.5", "x ** 2", "(x + z) ** 2", "x - (z - 2)", "-x + z", "x > z", "x * (z + 2) / (x + 1)", "2 ** x", "x <= 2"]:
         py = py_eval(e, ns)[1]
         for call in (f"I({e})", "{" + e + "}"):
